@@ -144,6 +144,20 @@ func cmdCheck(args []string) {
 	var units []string
 	var trusted []string
 	contractSrc := map[string]string{}
+	var drift []string
+	for _, lp := range ld.Order {
+		if lp.CF == nil {
+			continue
+		}
+		for key, reason := range lp.Drift {
+			for _, fc := range lp.CF.Funcs {
+				if fc.Key == key && hasProp(fc.Props, *prop) {
+					drift = append(drift, fmt.Sprintf("%s.%s: %s", lp.Name, key, reason))
+				}
+			}
+		}
+	}
+	sort.Strings(drift)
 	for _, lp := range ld.Order {
 		if lp.CF == nil {
 			continue
@@ -253,6 +267,10 @@ func cmdCheck(args []string) {
 	for _, e := range engineErrs {
 		fmt.Printf("UNDECIDED: property=%s engine could not process %s\n", *prop, e)
 		unchecked = append(unchecked, "engine: "+e)
+	}
+	for _, d := range drift {
+		fmt.Printf("UNDECIDED: property=%s contract drift (function not verified in this run): %s\n", *prop, d)
+		unchecked = append(unchecked, "contract drift: "+d)
 	}
 	for _, v := range viols {
 		suffix := ""
